@@ -5,7 +5,8 @@
    phases and [ph] over the three phases, so every statement covers all nine pairs. *)
 From V Require Import Common.Num C07.Model C07.Gen_FreeEnergy C07.Gen_InitEnergies C07.Gen_MixtureModels C07.Gen_InitData
      C07.InstR C07.ProofsPure C07.ProofsMix C07.Proofs C07.Gen_Rewire C07.Rewire C07.ProofsRewire
-     C07.Gen_Packages C07.Packages C07.ProofsPackages.
+     C07.Gen_Packages C07.Packages C07.ProofsPackages
+     C07.Gen_Handles C07.Handles C07.ProofsHandles C07.InstQ C07.ProofsQ.
 From Coq Require Import Reals List.
 From Coquelicot Require Import Coquelicot.
 Import ListNotations.
@@ -117,6 +118,15 @@ Theorem C07_Sfus_derived : forall Rg (aH aT : option R) (Hf Tmv : R), Tmv <> 0 -
   init_data_Sfus (mixenvR Rg) aH aT (Some Hf) (Some Tmv) = Ok (Some (Hf / Tmv)).
 Proof. exact Sfus_derived_lemma. Qed.
 Print Assumptions C07_Sfus_derived.
+
+(* ... but the Tm and Hfus SETTERS do not recompute it: [Sfus_follows_setters_statement] (InstQ.v: after chem.Tm = v or
+   chem.Hfus = v the stored entropy of fusion is again Hfus / Tm) is refuted -- witness Hfus = 1000, Tm = 200, Sfus = 5,
+   then chem.Tm = 250 leaves Sfus = 5 instead of 4.  (That the setters leave Sfus alone is generated from _chemical.py:
+   Tm_setter_refreshes_Sfus = Hfus_setter_refreshes_Sfus = false in Gen_Rewire.v; InstQ.set_Tm / set_Hfus are tied to
+   the real setters by the hist cases.)  No axioms. *)
+Theorem C07_Sfus_follows_setters_refuted : ~ Sfus_follows_setters_statement.
+Proof. exact Sfus_follows_setters_refuted_lemma. Qed.
+Print Assumptions C07_Sfus_follows_setters_refuted.
 
 (* within one phase H is a state function of T: H(T2) - H(T1) = integral of Cn *)
 Theorem C07_H_difference : forall Cn Rg Hv T_ref P_ref H_ref S0 Hfus Sfus Tm Tb,
@@ -277,16 +287,32 @@ Example C07_inv_satisfiable : forall (Cc Hc Sc : Type) (d0 : Cc) h k p sc hv add
   inv Cc Hc Sc d0 (h, fresh Cc Hc Sc d0 h k p sc hv addr :: nil).
 Proof. exact inv_fresh1. Qed.
 
+(* ---------------- model handles keep no state between calls ---------------- *)
+
+(* In any history of calls handle(T) and method switches (handle.method = m), every call returns the value of the
+   method selected AT THAT MOMENT -- never a value remembered from an earlier call.  Whether __call__ is stateless
+   is generated from thermosteam/thermo/t_dependent_property.py (Gen_Handles.v).  It is what makes "Chemical.Cn(phase, T)"
+   in C07_dH_dT and "Hvap(Tb)" in C07_jump_vap the chemical's current model.  No axioms. *)
+Theorem C07_handle_returns_current_model : forall (Tt V : Type) (eqT : Tt -> Tt -> bool) (value : nat -> Tt -> V)
+    (ops : list (Handles.hop Tt)) (h : Handles.handle Tt V) (m : nat) (T : Tt) (v : V),
+  In (m, T, v) (Handles.hrun Tt V eqT value h ops) -> v = value m T.
+Proof. exact handle_returns_current. Qed.
+Print Assumptions C07_handle_returns_current_model.
+
 (* ---------------- property packages ---------------- *)
 
 (* The ideal mixture models pair flows with pure-component functors by position.  After ANY history of
-   Thermo(chemicals), subset (same chemicals re-ordered, strict subsets), extended and ideal, every package's
-   mixture holds at index i the functors of the i-th of ITS OWN chemicals -- so C07_mix_H_weighted_sum /
-   C07_mix_Cn_linear / C07_mix_entropy_partial, applied to the models of that package, speak about the package's
-   own chemicals in the package's own order.  Whether subset rebuilds the mixture is generated from _thermo.py
-   (Gen_Packages.v).  No axioms. *)
-Theorem C07_package_mixture_aligned : forall (ops : list pop) (p : pkg),
-  In p (prun nil ops) -> p_models p = p_chems p.
+   Thermo(chemicals), subset (same chemicals re-ordered, strict subsets), extended and ideal, INTERLEAVED WITH ANY
+   CHANGES OF THE CHEMICALS (PChem f: setters, reset_free_energies, copy_models_from, copies, ... -- whatever they
+   do to the store of chemicals), every package's mixture (i) holds at index i a model of the i-th of ITS OWN
+   chemicals and (ii) every such model evaluates that chemical's CURRENT functors ([None]) rather than functor
+   objects captured when the mixture was built -- so C07_mix_H_weighted_sum / C07_mix_Cn_linear /
+   C07_mix_entropy_partial, applied to the models of that package, speak about what the package's own chemicals
+   report now, in the package's own order.  The order of the models, whether they are live and whether subset
+   rebuilds the mixture are generated from mixture/mixture.py and _thermo.py (Gen_Packages.v).  No axioms. *)
+Theorem C07_package_mixture_aligned : forall (St : Type) (st0 : St) (ops : list (pop St)) (p : pkg St),
+  In p (snd (prun St (st0, nil) ops)) ->
+  map fst (p_models p) = p_chems p /\ List.Forall (fun e => snd e = None) (p_models p).
 Proof. exact packages_aligned. Qed.
 Print Assumptions C07_package_mixture_aligned.
 
